@@ -396,6 +396,11 @@ def gen_spec(R, *, n_lf=None, hc=False, small=False, kinds=None, vrl=None, rows=
                     continue
                 if api_keyword(kind, pyname) not in API_PARAMS[kind]:
                     continue
+                if us and kind != 'frame' and R.random() < 0.04:
+                    # units given for an attribute that never gets a value: the attribute stays absent
+                    o['attrs'][pyname] = {'v': None, 'units': R.choice(['m', 's', 'ft']),
+                                          'route': R.choice(['units-dict', 'units-setup', 'units-later'])}
+                    continue
                 v = gen_attr_value(R, row, objs, li, hc=hc)
                 if v is None:
                     continue
@@ -509,6 +514,13 @@ def build(spec):
             kw = {}
             later = []
             for pyname, a in o['attrs'].items():
+                if a['route'] in ('units-dict', 'units-setup', 'units-later'):
+                    if a['route'] == 'units-later':
+                        later.append((pyname, None, a['units']))
+                    else:
+                        kw[api_keyword(o['kind'], pyname)] = ({'units': a['units']} if a['route'] == 'units-dict'
+                                                               else AttrSetup(units=a['units']))
+                    continue
                 v = _resolve(a['v'], b.handles)
                 if a['route'] == 'later' and o['kind'] not in ('origin',) and pyname not in ('index_type',):
                     later.append((pyname, v, a['units']))       # assigned after creation through .value / .units
@@ -540,7 +552,8 @@ def build(spec):
                 b.data[item.dataset_name] = b.arrays[-1][2]
             for pyname, v, u in later:
                 attr = getattr(item, pyname)
-                attr.value = v
+                if v is not None or u is None:
+                    attr.value = v
                 if u is not None:
                     attr.units = u
             hs.append(item)
@@ -589,14 +602,14 @@ def make_source(kind, datasets, opts):
     return path
 
 
-def write(spec, tmpdir, built=None, fname='out.dlis', prior=None, read_disk=False):
+def write(spec, tmpdir, built=None, fname='out.dlis', prior=None, read_disk=False, keep_existing=False):
     """-> dict(status, error, data, records, flushes, built)"""
     out = {'status': 'err', 'error': None, 'data': None, 'records': [], 'flushes': [], 'built': None, 'stage': 'build'}
     path = os.path.join(tmpdir, fname)
     if prior is not None:
         with open(path, 'wb') as f:
             f.write(prior)
-    elif os.path.exists(path):
+    elif os.path.exists(path) and not keep_existing:
         os.unlink(path)
 
     spec['write'].setdefault('source_opts', {}).setdefault('tmpdir', tmpdir)
